@@ -324,14 +324,13 @@ func parsePCR(i *astikit.BytesIterator) (cr *ClockReference, err error) {
 }
 
 func writePacket(w *astikit.BitsWriter, p *Packet, targetPacketSize int) (written int, retErr error) {
-	// Make sure the payload fits before writing anything
+	// Make sure the adaptation field and the payload fit before writing anything
 	available := targetPacketSize - 1 - mpegTsPacketHeaderSize
 	if p.Header.HasAdaptationField {
-		if p.AdaptationField.IsOneByteStuffing {
-			available--
-		} else {
-			available -= 1 + int(calcPacketAdaptationFieldLength(p.AdaptationField))
+		if p.AdaptationField.StuffingLength < 0 {
+			return 0, fmt.Errorf("writePacket: invalid adaptation field stuffing length %d", p.AdaptationField.StuffingLength)
 		}
+		available -= packetAdaptationFieldSize(p.AdaptationField)
 	}
 	if available < len(p.Payload) {
 		return 0, fmt.Errorf(
@@ -410,6 +409,32 @@ func writePCR(w *astikit.BitsWriter, cr *ClockReference) (int, error) {
 	return pcrBytesSize, b.Err()
 }
 
+// packetAdaptationFieldSize returns the number of bytes writePacketAdaptationField writes, length byte included
+// Unlike calcPacketAdaptationFieldLength it can't wrap around
+func packetAdaptationFieldSize(af *PacketAdaptationField) (size int) {
+	if af.IsOneByteStuffing {
+		return 1
+	}
+	size = 2
+	if af.HasPCR {
+		size += pcrBytesSize
+	}
+	if af.HasOPCR {
+		size += pcrBytesSize
+	}
+	if af.HasSplicingCountdown {
+		size++
+	}
+	if af.HasTransportPrivateData {
+		size += 1 + len(af.TransportPrivateData)
+	}
+	if af.HasAdaptationExtensionField {
+		size += 1 + int(calcPacketAdaptationFieldExtensionLength(af.AdaptationExtensionField))
+	}
+	size += af.StuffingLength
+	return
+}
+
 func calcPacketAdaptationFieldLength(af *PacketAdaptationField) (length uint8) {
 	length++
 	if af.HasPCR {
@@ -476,10 +501,10 @@ func writePacketAdaptationField(w *astikit.BitsWriter, af *PacketAdaptationField
 	}
 
 	if af.HasTransportPrivateData {
-		// we can get length from TransportPrivateData itself, why do we need separate field?
-		b.Write(uint8(af.TransportPrivateDataLength))
+		// The length is the one of TransportPrivateData itself, so that it always matches the bytes written
+		b.Write(uint8(len(af.TransportPrivateData)))
 		bytesWritten++
-		if af.TransportPrivateDataLength > 0 {
+		if len(af.TransportPrivateData) > 0 {
 			b.Write(af.TransportPrivateData)
 		}
 		bytesWritten += len(af.TransportPrivateData)
